@@ -8,7 +8,7 @@
  * structures of evdns.c (sizes compared at run time, all other sizes are served untyped).
  * Use:   #include "dns_typed_alloc_pre.h"   before  #include "evdns.c"
  *        #include "dns_typed_alloc_post.h"  after it (the structures are private to evdns.c).
- * Object sizes are exact (same size as requested), so cbmc's bounds checks are as precise as with plain malloc. */
+ * Object sizes are exact (same size as requested) except for the request block (header + query bytes, see post.h). */
 #ifndef VP_DNS_TYPED_ALLOC_PRE_H_
 #define VP_DNS_TYPED_ALLOC_PRE_H_
 #include "mm-internal.h"
@@ -18,4 +18,10 @@ static void *vpd_calloc(size_t n, size_t sz);
 #undef mm_calloc
 #define mm_malloc(sz) vpd_malloc((sz))
 #define mm_calloc(n, sz) vpd_calloc((n), (sz))
+/* memset(obj, 0, sizeof(T)) on a typed object goes through a byte view under cbmc's model, after which the fields are
+ * no longer constants for symex: typed zero assignment for the structures of evdns.c, byte loop otherwise */
+#ifdef VP_CBMC
+static void *vpd_memset(void *p, int c, size_t n);
+#define memset(p, c, n) vpd_memset((p), (c), (n))
+#endif
 #endif
